@@ -427,8 +427,17 @@ func flagWords(c *vf.Ctx) {
 	var uacBits []namedBit
 	seenName := map[string]uint64{}
 	for _, r := range rows {
-		if !r.KeyIsInt || !r.ValIsLit || r.KeyVal == 0 || r.KeyVal&(r.KeyVal-1) != 0 {
-			c.Fatalf("UserAccountControlMap row %q: key is not a single-bit constant with a literal name", r.KeyIdent)
+		if !r.KeyIsInt || !r.ValIsLit {
+			c.Fatalf("UserAccountControlMap row %q: key is not an integer constant with a literal name (harness out of date)", r.KeyIdent)
+		}
+		// a row of the decomposition table names ONE bit: String()/GetFlags() report a row whenever word&key != 0,
+		// so a zero or multi-bit key is reported for words in which its bits are not (all) set
+		single := r.KeyVal != 0 && r.KeyVal&(r.KeyVal-1) == 0
+		c.Check("C19/uac/map/every-row-names-a-single-bit", single, func() string {
+			return fmt.Sprintf("UserAccountControlMap row %s = %#x -> %q: the key is not a single bit; decomposition reports it for every word that shares any of its bits", r.KeyIdent, r.KeyVal, r.ValStr)
+		})
+		if !single {
+			continue
 		}
 		uacBits = append(uacBits, namedBit{bit: r.KeyVal, idents: []string{r.KeyIdent}, exact: r.ValStr})
 		key := fmt.Sprintf("C19/uac/map/%#08x/name-unique", r.KeyVal)
